@@ -21,7 +21,9 @@ type c05Case struct {
 
 var c05Kinds = []string{"stmt", "decl", "spec", "field", "method", "clause", "arg", "elt", "rawarg", "rawelt", "rawstmt"}
 
-func c05OwnLine(kind string) bool { return kind != "arg" && kind != "elt" && !strings.HasPrefix(kind, "raw") }
+func c05OwnLine(kind string) bool {
+	return kind != "arg" && kind != "elt" && !strings.HasPrefix(kind, "raw")
+}
 
 // c05Build makes the real tree and the pieces of the naive text.
 func c05Build(kind string) (file *dst.File, elems []dst.Node, open string, texts []string, term string, close string) {
